@@ -657,7 +657,7 @@ pub fn spawn_app(max_packet_length: u64, expiry: u64, timeout: u64, proxy: &str,
 /// `extra`: further arguments understood by the child (`bigstatus`)
 pub fn spawn_app_with(max_packet_length: u64, expiry: u64, timeout: u64, proxy: &str, limit: usize, extra: &[&str]) -> App {
     let port = free_port();
-    let exe = std::env::current_exe().expect("exe");
+    let exe = common::self_exe();
     let child = std::process::Command::new(exe)
         .args(["C14-child", &port.to_string(), &max_packet_length.to_string(), &expiry.to_string(), &timeout.to_string(), if proxy.is_empty() { "off" } else { proxy }, &limit.to_string()])
         .args(extra)
